@@ -616,10 +616,428 @@ Proof.
                 end = (s', r) -> Inv s' /\ ext s s' /\ (forall a, r = ROk a -> holds s' a)).
       { intros s1 r1 I1 X1 E1. destruct r1 as [a|x|]; [| destruct (is_exception x)|]; injection E1 as <- <-;
           (split; [exact I1|split; [exact X1|intros a0 Ha; try discriminate]]). injection Ha as <-. now apply holds_noobj. }
-      destruct v as [?| |o|?|?|? ?|]; try (apply (G s _ I (ext_refl s) E)).
+      destruct v as [?| |o|?|?|? ?|]; try (apply (G s (RRaise (XStd TypeError)) I (ext_refl s) E)).
       destruct (touch S OpRaise o [] s) as [s1 r1] eqn:Et.
       destruct (spec_touch (fun s => holds s (LO o)) OpRaise o [] (fun s H => proj1 (holds_LO s o) H) ltac:(discriminate) _ _ _ I Hv Et) as (I1 & X1 & _).
       exact (G s1 r1 I1 X1 E).
     + apply spec_ret. intros s [[_ Hv] _]. apply holds_LT. constructor; [exact Hv|]. constructor; [now apply holds_noobj|]. constructor; [now apply holds_noobj|constructor].
 Qed.
+
+(* ------------------------------------------------------------------ requests and messages *)
+Definition table_pk : Prop :=
+  forall n d, In (n, d) HT -> pk (c_pickle C) (h_body d) = true /\ Forall (fun e => pk (c_pickle C) e = true) (h_defaults d).
+Hypothesis HTpk : table_pk.
+
+Lemma assoc_s_In {A} k (l : list (string * A)) v : assoc_s k l = Some v -> In (k, v) l.
+Proof.
+  induction l as [|[k' v'] l IH]; cbn; [discriminate|]. destruct (String.eqb_spec k k') as [->|N].
+  - intros [= ->]. now left.
+  - intros H. right. now apply IH.
+Qed.
+Lemma find_handler_In hv d : find_handler HT DT hv = Some d -> exists n, In (n, d) HT.
+Proof.
+  unfold find_handler. destruct (num_of hv); [|discriminate]. destruct (assoc_z z DT) as [nm|]; [|discriminate].
+  intros H. exists nm. now apply assoc_s_In.
+Qed.
+Lemma spec_eval_list l : Forall (fun e => pk (c_pickle C) e = true) l ->
+  spec (fun _ => True) (eval_list S C UL BL l) holds_all.
+Proof.
+  induction l as [|e l IH]; intros H; cbn [eval_list]; [apply spec_ret; constructor|].
+  inversion H as [|? ? He Hl]; subst.
+  sp_bind holds.
+  - eapply spec_pre; [apply (spec_eval e He [] [])|]. intros; split; constructor.
+  - intros v. sp_bind holds_all; [eapply spec_pre; [apply IH; exact Hl|intros; exact Logic.I]|].
+    intros vs. apply spec_ret. intros s [[_ Hv] Hvs]. constructor; assumption.
+Qed.
+Lemma Forall_skipn {A} (P : A -> Prop) n (l : list A) : Forall P l -> Forall P (skipn n l).
+Proof. revert l. induction n; intros l H; cbn; [exact H|]. destruct l; [constructor|]. inversion H; auto. Qed.
+
+Lemma spec_call_handler hv args : spec (fun s => holds s args) (call_handler S C HT DT UL BL hv args) holds.
+Proof.
+  unfold call_handler.
+  assert (G : spec (fun s => holds s args)
+                match find_handler HT DT hv with
+                | None => raise_std KeyError
+                | Some d =>
+                    mbind (iter_lval S C UL BL args) (fun l =>
+                      let n := List.length l in
+                      if (n <? h_min d)%nat || (h_min d + List.length (h_defaults d) <? n)%nat then raise_std TypeError
+                      else mbind (eval_list S C UL BL (skipn (n - h_min d) (h_defaults d))) (fun ds => eval S C UL BL (l ++ ds) [] (h_body d)))
+                end holds).
+  { destruct (find_handler HT DT hv) as [d|] eqn:F; [|apply spec_raise].
+    destruct (find_handler_In _ _ F) as (n & Hn). destruct (HTpk _ _ Hn) as [Hb Hd].
+    sp_bind holds_all; [apply spec_iter|]. intros l. cbn zeta.
+    destruct ((List.length l <? h_min d)%nat || (h_min d + List.length (h_defaults d) <? List.length l)%nat); [apply spec_raise|].
+    sp_bind holds_all; [eapply spec_pre; [apply spec_eval_list; now apply Forall_skipn|intros; exact Logic.I]|].
+    intros ds. eapply spec_pre; [apply (spec_eval _ Hb)|]. intros s [[_ Hl] Hds]. split; [now apply holds_all_app|constructor]. }
+  destruct hv; try exact G; apply spec_unm.
+Qed.
+
+Lemma inv_end_conn s : Inv s -> Inv (end_conn s).
+Proof.
+  intros I. unfold end_conn. destruct (closed s); [exact I|].
+  destruct (cleanup s) as [s1 r1] eqn:E. cbn. exact (proj1 (spec_cleanup (fun _ => True) _ _ _ I Logic.I E)).
+Qed.
+
+Lemma inv_dispatch_request seq raw s s' o : Inv s -> dispatch_request S C HT DT UL BL seq raw s = (s', o) -> Inv s'.
+Proof.
+  intros I E. unfold dispatch_request in E.
+  match type of E with context [?m s] => match m with mbind _ _ => set (mm := m) in * end end.
+  assert (Hm : spec (fun _ => True) mm holds).
+  { subst mm. sp_bind (fun (_ : state) (_ : list pyval) => True); [apply spec_lift; auto|]. intros ha.
+    destruct ha as [|h [|pkg [|? ?]]]; try apply spec_raise.
+    sp_bind holds; [eapply spec_pre; [apply spec_unbox|intros; exact Logic.I]|]. intros args.
+    eapply spec_pre; [apply spec_call_handler|tauto]. }
+  destruct (mm s) as [s1 r1] eqn:Em. destruct (Hm _ _ _ I Logic.I Em) as (I1 & X1 & Q1).
+  destruct r1 as [v|x|].
+  - destruct (closed s1); [now injection E as <- <-|].
+    destruct (box S BL FUEL v s1) as [s2 r2] eqn:Eb.
+    destruct (spec_box FUEL v _ _ _ I1 (Q1 v eq_refl) Eb) as (I2 & _ & _).
+    destruct r2; now injection E as <- <-.
+  - destruct (closed s1); [now injection E as <- <-|].
+    destruct (propagates C x); injection E as <- <-; [now apply inv_end_conn|exact I1].
+  - now injection E as <- <-.
+Qed.
+
+Theorem inv_handle_msg msg answers s s' o : Inv s -> handle_msg S C HT DT ML UL BL msg answers s = (s', o) -> Inv s'.
+Proof.
+  intros I E. unfold handle_msg in E. destruct (closed s); [now injection E as <- <-|].
+  set (s0 := with_script (add_ev s EMsg) answers) in *.
+  assert (I0 : Inv s0). { destruct I as [Hw Ht]. split; cbn; [split; [exact Hw|exact Logic.I]|exact Ht]. }
+  destruct (Vinegar.unpack 3 msg) as [l| | |].
+  - destruct l as [|kind [|seq [|args [|? ?]]]]; try (injection E as <- <-; now apply inv_end_conn).
+    destruct (match num_of kind with Some z => assoc_z z ML | None => None end) as [[| |]|].
+    + eapply inv_dispatch_request; eauto.
+    + destruct (unbox S C UL FUEL args s0) as [s1 r1] eqn:Eu.
+      destruct (spec_unbox FUEL args _ _ _ I0 Logic.I Eu) as (I1 & _ & _).
+      destruct r1; injection E as <- <-; auto using inv_end_conn.
+    + destruct (load_exc S C args s0) as [s1 r1] eqn:Eu.
+      destruct (spec_load_exc (fun _ => True) args _ _ _ I0 Logic.I Eu) as (I1 & _ & _).
+      destruct r1; injection E as <- <-; auto using inv_end_conn.
+    + injection E as <- <-. now apply inv_end_conn.
+  - injection E as <- <-. now apply inv_end_conn.
+  - now injection E as <- <-.
+  - now injection E as <- <-.
+Qed.
+
+Lemma inv_step s i : Inv s -> Inv (fst (step S C HT DT ML UL BL s i)).
+Proof.
+  intros I. destruct i as [m a|f]; cbn [step].
+  - destruct (handle_msg S C HT DT ML UL BL m a s) as [s' o] eqn:E. cbn. eapply inv_handle_msg; eauto.
+  - cbn. destruct I as [Hw Ht]. split; cbn; [split; [exact Hw|exact Logic.I]|exact Ht].
+Qed.
+Theorem inv_run l : forall s, Inv s -> Inv (run S C HT DT ML UL BL s l).
+Proof. induction l as [|i l IH]; intros s I; cbn; [exact I|]. apply IH. now apply inv_step. Qed.
+Lemma inv_init w : Inv (init w).
+Proof. split; cbn; [exact Logic.I|reflexivity]. Qed.
+Theorem wf_run w l : wf (tr (run S C HT DT ML UL BL (init w) l)).
+Proof. exact (proj1 (inv_run l _ (inv_init w))). Qed.
 End Inv.
+
+(* ================================================================== what the invariant says, event by event *)
+Section Corollaries.
+Context {W : Type}.
+Variable S : sem W.
+Variable C : config.
+
+Lemma wf_app t1 : forall t2, wf S C (t1 ++ t2) -> wf S C t2.
+Proof. induction t1 as [|e t1 IH]; intros t2 H; [exact H|]. apply IH. exact (proj1 H). Qed.
+(* every event of a well-formed trace was legitimate when it happened (t2 = everything before it) *)
+Lemma wf_event t1 e t2 : wf S C (t1 ++ e :: t2) -> ev_ok S C (ghost_of t2) e.
+Proof. intros H. apply wf_app in H. exact (proj2 H). Qed.
+
+(* the ghost table holds only objects that were lent (EBox) earlier in the trace *)
+Definition tbl_objs (t : table) : list oid := map (fun e => snd (fst e)) t.
+Lemma tbl_find_objs k t o c : tbl_find k t = Some (o, c) -> In o (tbl_objs t).
+Proof.
+  induction t as [|[[k' o'] c'] t IH]; cbn; [discriminate|]. destruct (pv_eqb k k').
+  - intros [= <- <-]. now left.
+  - intros H. right. now apply IH.
+Qed.
+Lemma tbl_add_objs k o t : incl (tbl_objs (tbl_add k o t)) (o :: tbl_objs t).
+Proof.
+  induction t as [|[[k' o'] c'] t IH]; cbn; [apply incl_refl|]. destruct (pv_eqb k k'); cbn.
+  - apply incl_tl, incl_refl.
+  - intros x [<-|H]; [right; now left|]. destruct (IH x H) as [<-|H']; [now left|right; now right].
+Qed.
+Lemma tbl_decref_objs k n t : incl (tbl_objs (tbl_decref k n t)) (tbl_objs t).
+Proof.
+  induction t as [|[[k' o'] c'] t IH]; cbn; [apply incl_refl|]. destruct (pv_eqb k k'); cbn.
+  - destruct (c' <? n)%Z; cbn; [apply incl_tl, incl_refl|apply incl_refl].
+  - intros x [<-|H]; [now left|right; now apply IH].
+Qed.
+Lemma ghost_tbl_lent t : forall o, In o (tbl_objs (g_tbl (ghost_of t))) -> exists k, In (EBox k o) t.
+Proof.
+  induction t as [|e t IH]; intros o H; [contradiction|].
+  assert (K : In o (tbl_objs (g_tbl (ghost_of t))) -> exists k, In (EBox k o) (e :: t)).
+  { intros H'. destruct (IH o H') as (k & Hk). exists k. now right. }
+  destruct e; cbn in H; auto.
+  - apply tbl_add_objs in H as [<-|H]; [exists k; now left|auto].
+  - apply tbl_decref_objs in H. auto.
+  - contradiction.
+Qed.
+(* what the current request holds came from the root, the table, type() or the result of an operation, after the last EMsg *)
+Definition gives (e : event) (o : oid) : Prop :=
+  match e with
+  | ERoot o' | EResolve _ o' | EType _ o' => o = o'
+  | EAttr _ _ _ ys | EHook _ _ _ ys | ETouch _ _ ys | EForeign ys => In o ys
+  | _ => False
+  end.
+Lemma auth_origin t : forall o, In o (g_auth (ghost_of t)) -> exists e, In e t /\ gives e o.
+Proof.
+  induction t as [|e t IH]; intros o H; [contradiction|].
+  assert (K : In o (g_auth (ghost_of t)) -> exists e', In e' (e :: t) /\ gives e' o).
+  { intros H'. destruct (IH o H') as (e' & He & Hg). exists e'. split; [now right|exact Hg]. }
+  destruct e; cbn in H; auto; try contradiction;
+    try (destruct H as [<-|H]; [eexists; split; [now left|reflexivity]|auto]);
+    try (apply in_app_or in H as [H|H]; [eexists; split; [now left|exact H]|auto]).
+Qed.
+
+(* under the default attribute policy a decision "use the builtin on <final>" means: a read, of an exposed_ or safe name *)
+Lemma decide_default_hook g c p pn vw final : decide g c p pn vw = Ok (ViaDefault final) -> hook_for vw p = false.
+Proof.
+  unfold decide, access_attr. destruct (nkind_of pn); try discriminate; destruct (hook_for vw p); try reflexivity; cbn; discriminate.
+Qed.
+Lemma starts_with_app p n : starts_with p (p ++ n) = true.
+Proof. induction p as [|x p IH]; cbn; [reflexivity|]. now rewrite N.eqb_refl, IH. Qed.
+Lemma default_decision p pn vw final :
+  decide true (c_attr default_config) p pn vw = Ok (ViaDefault final) ->
+  p = PGet /\ (starts_with (txt "exposed_") final = true \/ In final (map txt default_safe)).
+Proof.
+  intros D. pose proof (decide_default_hook _ _ _ _ _ _ D) as Hh.
+  rewrite decide_is_spec in D by (now left). apply (spec_sound _ _ _ _ _ Hh) in D as (_ & Hp & Hn). split.
+  - destruct p; [reflexivity|discriminate Hp|discriminate Hp].
+  - destruct Hn as [[-> Ha]|[-> _]].
+    + destruct Ha as [Ha|[[_ Ha]|[[_ Ha]|[Ha _]]]]; [discriminate Ha|now left|now right|discriminate Ha].
+    + left. apply starts_with_app.
+Qed.
+End Corollaries.
+
+(* ================================================================== the service state changes only with a touching event *)
+Section Quiet.
+Context {W : Type}.
+Variable S : sem W.
+Variable C : config.
+Variable HT : list (string * hdef).
+Variable DT : list (Z * string).
+Variable ML : list (Z * dact).
+Variable UL : list (Z * uact).
+Variable BL : list (string * Z).
+Notation state := (hst W).
+Notation M := (@Hostile.M W).
+
+Definition touching (e : event) : bool :=
+  match e with ETouch _ _ _ | EAttr _ _ _ _ | EHook _ _ _ _ | EEnv => true | _ => false end.
+Definition nt (t : list event) : nat := List.length (filter touching t).
+Definition qrel (s s' : state) : Prop := (nt (tr s) <= nt (tr s'))%nat /\ (nt (tr s') = nt (tr s) -> wst s' = wst s).
+Definition qspec {A} (m : M A) : Prop := forall s s' r, m s = (s', r) -> qrel s s'.
+
+Lemma qrel_refl s : qrel s s. Proof. split; auto. Qed.
+Lemma qrel_trans a b c : qrel a b -> qrel b c -> qrel a c.
+Proof. intros [L1 E1] [L2 E2]. split; [lia|]. intros H. rewrite E2 by lia. apply E1. lia. Qed.
+Lemma qrel_same (s s' : state) : tr s' = tr s -> wst s' = wst s -> qrel s s'.
+Proof. intros Ht Hw. unfold qrel. rewrite Ht. auto. Qed.
+Lemma qrel_add s e : qrel s (add_ev s e).
+Proof. unfold qrel, nt. cbn. destruct (touching e); cbn; split; auto; lia. Qed.
+Lemma qrel_touch s e w : touching e = true -> qrel s (with_w (add_ev s e) w).
+Proof. intros H. unfold qrel, nt. cbn. rewrite H. cbn. split; lia. Qed.
+
+Lemma q_ret {A} (a : A) : qspec (ret a). Proof. intros s s' r [= <- <-]. apply qrel_refl. Qed.
+Lemma q_raise {A} x : qspec (@raise W A x). Proof. intros s s' r [= <- <-]. apply qrel_refl. Qed.
+Lemma q_unm {A} : qspec (@unm W A). Proof. intros s s' r [= <- <-]. apply qrel_refl. Qed.
+Lemma q_lift {A} (r : result A) : qspec (lift r).
+Proof. destruct r; cbn [lift]; [apply q_ret|apply q_raise|apply q_unm|apply q_unm]. Qed.
+Lemma q_bind {A B} (m : M A) (k : A -> M B) : qspec m -> (forall a, qspec (k a)) -> qspec (mbind m k).
+Proof.
+  intros Hm Hk s s' r E. unfold mbind in E. destruct (m s) as [s1 [a|x|]] eqn:Em.
+  - eapply qrel_trans; [exact (Hm _ _ _ Em)|exact (Hk a _ _ _ E)].
+  - injection E as <- <-. exact (Hm _ _ _ Em).
+  - injection E as <- <-. exact (Hm _ _ _ Em).
+Qed.
+Lemma q_emit e : qspec (emit e). Proof. intros s s' r [= <- <-]. apply qrel_add. Qed.
+Lemma q_mark : qspec (@mark_approx W). Proof. intros s s' r [= <- <-]. now apply qrel_same. Qed.
+Lemma q_pop : qspec (@pop_answer W).
+Proof. intros s s' r E. unfold pop_answer in E. destruct (script s); injection E as <- <-; now apply qrel_same. Qed.
+Lemma q_touch op o args : qspec (touch S op o args).
+Proof. intros s s' r E. unfold touch in E. destruct (s_op S (wst s) op o args). injection E as <- <-. now apply qrel_touch. Qed.
+Lemma q_val_op op v args : qspec (val_op S op v args).
+Proof. intros s s' r E. unfold val_op in E. injection E as <- <-. apply qrel_add. Qed.
+Lemma q_resolve k : qspec (@resolve W k).
+Proof. intros s s' r E. unfold resolve in E. destruct (tbl_find k (tbl s)) as [[o c]|]; injection E as <- <-; apply qrel_add. Qed.
+Lemma q_lend o : qspec (lend S o).
+Proof. intros s s' r E. unfold lend in E. injection E as <- <-. apply (qrel_add s (EBox (s_key S o) o)). Qed.
+Lemma q_cleanup : qspec (@cleanup W).
+Proof. intros s s' r [= <- <-]. eapply qrel_trans; [apply (qrel_add s EDisconnect)|apply (qrel_add (add_ev s EDisconnect) EClear)]. Qed.
+Lemma q_fold {X} (f : X -> event) (Hf : forall x, touching (f x) = false) l : forall s : state,
+  let s1 := fold_left (fun s e => add_ev s (f e)) l s in nt (tr s1) = nt (tr s) /\ wst s1 = wst s.
+Proof.
+  induction l as [|x l IH]; intros s; cbn; [auto|]. destruct (IH (add_ev s (f x))) as [A B]. cbn zeta in A, B.
+  rewrite A, B. unfold nt. cbn. now rewrite Hf.
+Qed.
+Lemma q_load_exc payload : qspec (load_exc S C payload).
+Proof.
+  intros s s' r E. unfold load_exc in E. destruct (Vinegar.vload (c_rflags C) (s_env S) payload) as [eff rr].
+  destruct (q_fold EVin (fun _ => eq_refl) eff s) as [A B]. cbn zeta in A, B.
+  assert (R : s' = fold_left (fun s e => add_ev s (EVin e)) eff s)
+    by (destruct rr as [[| |c a sets st]| | |]; try (destruct (negb (iterable a) || existsb set_fails sets)); try destruct st; now injection E).
+  subst s'. split; [lia|auto].
+Qed.
+
+Ltac q1 :=
+  first [ apply q_ret | apply q_raise | apply q_unm | apply q_lift | apply q_emit | apply q_mark | apply q_pop | apply q_touch
+        | apply q_val_op | apply q_resolve | apply q_lend | apply q_cleanup | apply q_load_exc | assumption
+        | (apply q_bind; [|intros ?]) ].
+Ltac qd :=
+  match goal with
+  | |- qspec (match ?x with _ => _ end) => destruct x
+  | |- qspec (if ?x then _ else _) => destruct x
+  | |- qspec (let '(_, _) := ?x in _) => destruct x
+  end.
+Ltac qauto := repeat first [q1 | qd].
+
+Lemma q_box f : forall v, qspec (box S BL f v).
+Proof.
+  induction f as [|f IH]; intros v; cbn [box]; [apply q_unm|].
+  destruct (as_value v); [apply q_ret|]. destruct v; try apply q_unm; try (qauto; fail).
+  apply q_bind; [|intros; apply q_ret]. induction l as [|x l IHl]; [apply q_ret|]. apply q_bind; [apply IH|intros]. apply q_bind; [exact IHl|intros; apply q_ret].
+Qed.
+Lemma q_genexpr {A} (m : M A) : qspec m -> qspec (in_genexpr m).
+Proof. intros H s s' r E. unfold in_genexpr in E. destruct (m s) as [s1 r1] eqn:Em. specialize (H _ _ _ Em). destruct r1 as [?|[[]| | | |]|]; now injection E as <- <-. Qed.
+Lemma q_unbox f : forall pkg, qspec (unbox S C UL f pkg).
+Proof.
+  induction f as [|f IH]; intros pkg; cbn [unbox]; [apply q_unm|].
+  apply q_bind; [apply q_lift|intros lv]. destruct lv as [|label [|value [|? ?]]]; try apply q_raise.
+  destruct (match num_of label with Some z => assoc_z z UL | None => None end) as [[| | |]|]; [apply q_ret| |apply q_resolve| |apply q_raise].
+  - apply q_bind; [apply q_lift|intros items].
+    assert (G : qspec (mbind ((fix go (l : list pyval) : M (list lval) :=
+                             match l with
+                             | [] => ret []
+                             | x :: r => mbind (in_genexpr (unbox S C UL f x)) (fun v => mbind (go r) (fun vs => ret (v :: vs)))
+                             end) items) (fun l => ret (LT l)))).
+    { apply q_bind; [|intros; apply q_ret]. induction items as [|x items IHi]; [apply q_ret|].
+      apply q_bind; [apply q_genexpr, IH|intros]. apply q_bind; [exact IHi|intros; apply q_ret]. }
+    destruct value; try exact G. destruct items as [|? [|? ?]]; try exact G. apply q_unm.
+  - destruct (index3 value) as [[[a b] c]|x|]; [|apply q_raise|apply q_unm].
+    destruct (py_str a); [|apply q_unm]. destruct (is_builtin_name S t); [apply q_ret|]. destruct (negb (sane_name t)); [apply q_unm|].
+    apply q_bind; [apply q_emit|intros]. apply q_bind; [apply q_pop|intros ans]. destruct ans.
+    + apply q_bind; [apply IH|intros m]. destruct (methods_ok m); qauto.
+    + qauto.
+    + qauto.
+Qed.
+Lemma q_ask h args : qspec (ask S C UL BL h args).
+Proof. unfold ask. apply q_bind; [apply q_box|intros]. apply q_bind; [apply q_emit|intros]. apply q_bind; [apply q_pop|intros ans]. destruct ans; [apply q_unbox|qauto|qauto]. Qed.
+Lemma q_converse h args : qspec (converse S C UL BL h args).
+Proof. unfold converse. apply q_bind; [apply q_mark|intros; apply q_ask]. Qed.
+Hint Resolve q_converse q_ask q_unbox q_box : qs.
+Ltac q2 := first [q1 | apply q_converse | apply q_ask | apply q_unbox | apply q_box | qd].
+Lemma q_iter v : qspec (iter_lval S C UL BL v).
+Proof. destruct v; cbn [iter_lval]; repeat q2. Qed.
+Lemma q_kw v : qspec (kw_lval S C UL BL v).
+Proof. destruct v; cbn [kw_lval]; repeat q2. Qed.
+Lemma q_truthy v : qspec (truthy S C UL BL v).
+Proof. destruct v; cbn [truthy]; repeat q2. Qed.
+Lemma q_access p tgt nm extra : qspec (access S C UL BL p tgt nm extra).
+Proof.
+  destruct tgt; cbn [access]; try (repeat q2; fail).
+  intros s s' r E.
+  destruct (q_fold (fun e => EProbe o (ev_name e)) (fun _ => eq_refl) (probes_of (c_attr C) p (pyname_of nm) (s_view S (wst s) o)) s) as [A B].
+  cbn zeta in A, B. set (s1 := fold_left _ _ s) in *.
+  assert (Q1 : qrel s s1) by (split; [lia|auto]).
+  destruct (decide (c_guard C) (c_attr C) p (pyname_of nm) (s_view S (wst s) o)) as [[n|final]|e| |].
+  - destruct (s_hook S (wst s1) o p n extra). injection E as <- <-. eapply qrel_trans; [exact Q1|now apply qrel_touch].
+  - destruct (s_attr S (wst s1) o p final extra). injection E as <- <-. eapply qrel_trans; [exact Q1|now apply qrel_touch].
+  - now injection E as <- <-.
+  - now injection E as <- <-.
+  - now injection E as <- <-.
+Qed.
+Lemma q_islice b : qspec (islice_count S C UL BL b).
+Proof. destruct b; cbn [islice_count]; repeat q2. Qed.
+Ltac q3 := first [q1 | apply q_converse | apply q_ask | apply q_unbox | apply q_box | apply q_iter | apply q_kw | apply q_truthy | apply q_access | apply q_islice | qd].
+Lemma q_do_op op a b : qspec (do_op S C UL BL op a b).
+Proof. destruct op; cbn [do_op]; repeat q3. Qed.
+Lemma q_decref k c : qspec (decref S k c).
+Proof.
+  destruct k; cbn [decref]; try (repeat q3; fail).
+  intros s s' r E. destruct (tbl_find v (tbl s)) as [[o cnt]|].
+  - destruct c; try (injection E as <- <-; apply qrel_refl).
+    + destruct v0; try (injection E as <- <-; first [apply qrel_refl | apply (qrel_add s (EDecref v _))]).
+    + revert E. apply (q_bind (touch S OpCmp o0 []) (fun _ => unm)); [apply q_touch|intros; apply q_unm].
+  - injection E as <- <-. apply qrel_add.
+Qed.
+Ltac q4 := first [q3 | apply q_do_op | apply q_decref].
+Lemma q_eval e : forall env loc, qspec (eval S C UL BL env loc e).
+Proof.
+  induction e; intros env loc; cbn [eval]; try (repeat first [q4 | apply IHe | apply IHe1 | apply IHe2 | apply IHe3 | apply IHe4]; fail).
+  - (* XTryExc *)
+    intros s s' r E. destruct (eval S C UL BL env loc e1 s) as [s1 r1] eqn:E1. pose proof (IHe1 _ _ _ _ _ E1) as Q1.
+    destruct r1 as [a|x|]; [now injection E as <- <-| |now injection E as <- <-].
+    destruct (is_exception x); [|now injection E as <- <-]. eapply qrel_trans; [exact Q1|exact (IHe2 _ _ _ _ _ E)].
+  - (* XCtxArgs *)
+    apply q_bind; [apply IHe|intros v]. apply q_bind; [apply q_truthy|intros b]. destruct b; [|apply q_ret].
+    intros s s' r E.
+    assert (G : forall (s1 : state) (r1 : res lval), qrel s s1 ->
+              match r1 with
+              | RRaise x => if is_exception x then (s1, ROk (LT [LOpq; LOpq; LOpq])) else (s1, @RRaise lval x)
+              | ROk _ => (s1, @RUnm lval)
+              | RUnm => (s1, @RUnm lval)
+              end = (s', r) -> qrel s s').
+    { intros s1 r1 Q E1. destruct r1 as [a|x|]; [|destruct (is_exception x)|]; now injection E1 as <- <-. }
+    destruct v as [?| |o|?|?|? ?|]; try (apply (G s (RRaise (XStd TypeError)) (qrel_refl s) E)).
+    destruct (touch S OpRaise o [] s) as [s1 r1] eqn:Et. exact (G s1 r1 (q_touch _ _ _ _ _ _ Et) E).
+Qed.
+Lemma q_eval_list l : qspec (eval_list S C UL BL l).
+Proof. induction l; cbn [eval_list]; [apply q_ret|]. apply q_bind; [apply q_eval|intros]. apply q_bind; [exact IHl|intros; apply q_ret]. Qed.
+Lemma q_call_handler hv args : qspec (call_handler S C HT DT UL BL hv args).
+Proof.
+  unfold call_handler.
+  assert (G : qspec match find_handler HT DT hv with
+                | None => raise_std KeyError
+                | Some d =>
+                    mbind (iter_lval S C UL BL args) (fun l =>
+                      let n := List.length l in
+                      if (n <? h_min d)%nat || (h_min d + List.length (h_defaults d) <? n)%nat then raise_std TypeError
+                      else mbind (eval_list S C UL BL (skipn (n - h_min d) (h_defaults d))) (fun ds => eval S C UL BL (l ++ ds) [] (h_body d)))
+                end).
+  { destruct (find_handler HT DT hv); [|apply q_raise]. apply q_bind; [apply q_iter|intros l]. cbn zeta.
+    destruct (_ || _); [apply q_raise|]. apply q_bind; [apply q_eval_list|intros; apply q_eval]. }
+  destruct hv; try exact G; apply q_unm.
+Qed.
+Lemma qrel_end_conn s : qrel s (end_conn s).
+Proof. unfold end_conn. destruct (closed s); [apply qrel_refl|]. destruct (cleanup s) as [s1 r1] eqn:E. exact (q_cleanup _ _ _ E). Qed.
+
+Lemma q_dispatch_request seq raw s s' o : dispatch_request S C HT DT UL BL seq raw s = (s', o) -> qrel s s'.
+Proof.
+  intros E. unfold dispatch_request in E.
+  match type of E with context [?m s] => match m with mbind _ _ => set (mm := m) in * end end.
+  assert (Hm : qspec mm).
+  { subst mm. apply q_bind; [apply q_lift|intros ha]. destruct ha as [|h [|pkg [|? ?]]]; try apply q_raise.
+    apply q_bind; [apply q_unbox|intros; apply q_call_handler]. }
+  destruct (mm s) as [s1 r1] eqn:Em. pose proof (Hm _ _ _ Em) as Q1.
+  destruct r1 as [v|x|].
+  - destruct (closed s1); [now injection E as <- <-|].
+    destruct (box S BL FUEL v s1) as [s2 r2] eqn:Eb. pose proof (q_box _ _ _ _ _ Eb) as Q2.
+    destruct r2; injection E as <- <-; eapply qrel_trans; eauto.
+  - destruct (closed s1); [now injection E as <- <-|].
+    destruct (propagates C x); injection E as <- <-; [eapply qrel_trans; [exact Q1|apply qrel_end_conn]|exact Q1].
+  - now injection E as <- <-.
+Qed.
+
+(* a message whose handling adds no touching event leaves the service state as it was *)
+Theorem q_handle_msg msg answers s s' o : handle_msg S C HT DT ML UL BL msg answers s = (s', o) -> qrel s s'.
+Proof.
+  intros E. unfold handle_msg in E. destruct (closed s); [injection E as <- <-; apply qrel_refl|].
+  set (s0 := with_script (add_ev s EMsg) answers) in *.
+  assert (Q0 : qrel s s0) by (apply (qrel_add s EMsg)).
+  assert (QE : forall s1, qrel s0 s1 -> qrel s (end_conn s1)).
+  { intros s1 Q. eapply qrel_trans; [exact Q0|]. eapply qrel_trans; [exact Q|apply qrel_end_conn]. }
+  destruct (Vinegar.unpack 3 msg) as [l| | |]; try (injection E as <- <-; first [exact Q0 | apply QE, qrel_refl]).
+  destruct l as [|kind [|seq [|args [|? ?]]]]; try (injection E as <- <-; apply QE, qrel_refl).
+  destruct (match num_of kind with Some z => assoc_z z ML | None => None end) as [[| |]|].
+  - eapply qrel_trans; [exact Q0|eapply q_dispatch_request; eauto].
+  - destruct (unbox S C UL FUEL args s0) as [s1 r1] eqn:Eu. pose proof (q_unbox _ _ _ _ _ Eu) as Q1.
+    destruct r1; injection E as <- <-; first [apply QE; exact Q1 | eapply qrel_trans; eauto].
+  - destruct (load_exc S C args s0) as [s1 r1] eqn:Eu. pose proof (q_load_exc _ _ _ _ Eu) as Q1.
+    destruct r1; injection E as <- <-; first [apply QE; exact Q1 | eapply qrel_trans; eauto].
+  - injection E as <- <-. apply QE, qrel_refl.
+Qed.
+End Quiet.
